@@ -339,10 +339,42 @@ func ruleRecoveryAtoms(c *Ctx) {
 	c.Check(hasComparison(est, "<=", loadOfField(sTot), loadOfField(sRec)), rule, "sample bound in "+fnName(est), "the estimate is kept below 1 unless the walk is complete", P.pos(est.Pos()), "")
 }
 
+// ruleFailedStoreCount: a store counts as failed when it is not a tombstone
+// and has been silent for the configured timeout — whatever its state
+// otherwise (an offline store that died is as gone as an up one).
+func ruleFailedStoreCount(c *Ctx) {
+	P := c.P
+	rule := c.Prop + "/transition-guards"
+	fn := P.Method("server/replication", "ModeManager", "checkStoreStatus")
+	si := func(m string) Callee { return F(P.Method("server/core", "StoreInfo", m)) }
+	notTomb := guardCall("!IsTombstone()", false, callMatcher(si("IsTombstone")))
+	silent := guardRel("DownTime() >= wait-store-timeout", ">=", resultOfCall(si("DownTime")), anyVal)
+	n := c.mustPrecede(rule, fn, "a store counted as failed", func(x ssa.Instruction) bool {
+		bo, ok := x.(*ssa.BinOp)
+		if !ok || bo.Op != token.ADD || !isConstInt(1)(bo.Y) {
+			return false
+		}
+		// a counter: a named result (a cell, because of the deferred unlock) or a local carried round the loop
+		if u, isLoad := bo.X.(*ssa.UnOp); isLoad && u.Op == token.MUL {
+			_, isCell := u.X.(*ssa.Alloc)
+			return isCell
+		}
+		phi, isPhi := bo.X.(*ssa.Phi)
+		return isPhi && phi.Comment != "rangeindex"
+	}, []Ev{notTomb, silent}, all, "counted only when it is not a tombstone and has been silent for the timeout")
+	if n < 2 {
+		c.Undec(rule, "fail counters in "+fnName(fn), "two (primary, dr)", P.pos(fn.Pos()), fmt.Sprint(n))
+	}
+	// and nothing else is consulted to skip a store: no other StoreInfo state predicate decides in this function
+	for _, m := range []string{"IsUp", "IsOffline", "IsDisconnected", "IsUnhealthy", "IsPhysicallyDestroyed"} {
+		c.Check(len(callsIn(fn, false, si(m))) == 0, rule, m+"() in "+fnName(fn), "no further state predicate narrows the set of stores that can count as failed", P.pos(fn.Pos()), "")
+	}
+}
+
 func init() {
 	register("C19", "DR auto-sync only declares 'sync' when every region is in sync", func(c *Ctx) {
 		c.Group("C19/persist-before-serve", "a new status is offered to members and saved (same value) before it is served; its state id comes from a successful AllocID; the served status is otherwise only loaded or given progress numbers; accessed under the manager lock", func() { rulePersistBeforeServe(c) })
-		c.Group("C19/transition-guards", "tickDR: →async, async→sync_recover and sync_recover→sync are called only under their stated conditions; UpdateConfig rolls its config back when the switch fails", func() { ruleTransitionGuards(c) })
+		c.Group("C19/transition-guards", "tickDR: →async, async→sync_recover and sync_recover→sync are called only under their stated conditions; UpdateConfig rolls its config back when the switch fails", func() { ruleTransitionGuards(c); ruleFailedStoreCount(c) })
 		c.Group("C19/recovery", "entering sync_recover resets the cursor; the cursor advances only past contiguous regions reporting integrity under the current state id; progress 1.0 only after the whole key space", func() { ruleRecoveryAtoms(c) })
 	})
 }
